@@ -59,6 +59,7 @@ func (db *DB) compact(sourceSeg *segment) (CompactionResult, error) {
 	db.mu.Lock()
 	sourceSeg.meta.Full = true // Prevent writes to the compacted file.
 	db.mu.Unlock()
+	verifYield(db, "compact:segment")
 
 	it, err := newSegmentIterator(sourceSeg)
 	if err != nil {
@@ -91,8 +92,10 @@ func (db *DB) compact(sourceSeg *segment) (CompactionResult, error) {
 		if err != nil {
 			return cr, err
 		}
+		verifYield(db, "compact:record")
 	}
 
+	verifYield(db, "compact:copied")
 	db.mu.Lock()
 	defer db.mu.Unlock()
 	err = db.datalog.removeSegment(sourceSeg)
@@ -143,6 +146,7 @@ func (db *DB) Compact() (CompactionResult, error) {
 	db.mu.RLock()
 	segments := db.pickForCompaction()
 	db.mu.RUnlock()
+	verifYield(db, "compact:picked")
 
 	for _, seg := range segments {
 		segcr, err := db.compact(seg)
